@@ -127,7 +127,7 @@ CHECKS = {
         "title": "Emission and distribution can never halt the chain",
         "level": "exploration",
         "technique": "stateful property-based testing (rapid state machine): blocks, governance updates, inflows, bank faults and in-place genesis export/import; oracle = recover() around begin/end block processing",
-        "tests": [T("TestC10", 300, 1200, qshards=3, steps=40)],
+        "tests": [T("TestC10", 300, 1200, qshards=3, steps=40), T("TestC10Restart", 40, 200, qshards=2, timeout=900)],
         "plain_tests": ["TestRegressC10"],
         "rule": "cases = generated valid minter configuration x generated valid sub-distributor configuration (integrated-safe: foreign escrow module accounts are never sources), then a rapid state machine (avg 40 steps) over: advance a block by dt in {0,1ns,1ms,1s,1min,1d,30d,1y,5y}x{1..3} or to a schedule boundary (+-1ns,+1ms); inflows; MsgUpdateParams / MsgUpdateMintersParams of the minter built from the valid generator relative to the current time and current period (start in past/future, periods added/removed, mint denomination from a pool that contains invalid denominations); the four distributor update messages; in-place export->JSON->Validate->InitGenesis of cfeminter and cfedistributor; per-call bank fault injection (module-level mode). "
                 "Two execution modes per case: integrated (app.BeginBlocker + app.EndBlocker of the whole module manager) or module level (minter and fault-capable distributor BeginBlockers). Non-trivial = an accepted parameter update after a block that minted, or an export/import after a burn. Distinct = SHA-256 of the history.",
